@@ -63,10 +63,12 @@ Example C13_premises_satisfiable :
   (forall a b : lb, key_eqb a b = true <-> a = b).
 Proof. exact (conj (persisted_empty lb_iface) (conj lb_history_wf lb_eqb_spec)). Qed.
 
-(* OPEN: the node list returned by nodes_from_set, inserted into an empty storage and loaded at
-   the returned root, is a persisted tree of the map the set denotes (exercised by the
-   correspondence run — OFromNodes histories — and by the harness oracle only). *)
-Definition C13_nodes_from_set_full_statement : Prop :=
+(* The node list returned by nodes_from_set, inserted into an empty storage and loaded at the
+   returned root, is a persisted tree of the map the set denotes (later duplicates win):
+   the nodes returned for a set are a complete persisted state. *)
+From FV Require Import Merkle.SparseSorted Merkle.SparseFromSet Merkle.SparseFromSetGen.
+
+Theorem C13_nodes_from_set :
   forall (Dg : Type) (IF : smt_iface Dg) (kcmp : Dg -> Dg -> comparison),
     (forall a b, kcmp a b = bits_compare (i_bits IF a) (i_bits IF b)) ->
     forall (set : list (Dg * bytes)) (r : Dg) (nodes : list (Dg * @primitive Dg)),
@@ -75,3 +77,5 @@ Definition C13_nodes_from_set_full_statement : Prop :=
       exists T, tree_load (i_eqb IF) (i_zero IF) (i_hleaf IF) (i_hnode IF)
                           (fold_left (fun st e => sset (i_eqb IF) st (fst e) (snd e)) nodes []) r = Ok T /\
                 persisted IF T (map_of_list (map (fun e => (i_bits IF (fst e), i_sum IF (snd e))) set)).
+Proof. exact @nodes_from_set_loadable. Qed.
+Print Assumptions C13_nodes_from_set.
